@@ -19,6 +19,7 @@ TEXT = ("Thin claim: exactness of the Myers edit script for all pairs of arrays 
         "base revision and the value returned are the same local, a hit returns the cached order unmodified, the cache "
         "guard is held across the whole reconstruction, keys are revisions (content-derived, C19), and only full orders "
         "are cached.")
+TECHNIQUE = 'static analysis over rustc MIR: diff-base = recorded parent (provenance), op-code/operand table agreement of edit-script writer and applier, cache transparency (who-may-write, held guard, lookup keys), history-walk must-pass rules'
 TRUSTED = ["rustc nightly MIR", "yavomrs::myers_unfilled produces a correct edit script", "Vec::drain / splice semantics", "C19"]
 
 
